@@ -571,6 +571,14 @@ func ReadElement(r io.Reader, element interface{}) error {
 		}
 		numSigs := binary.BigEndian.Uint16(l[:])
 
+		// Each signature takes 64 bytes on the wire, so no message
+		// can carry more than MaxMsgBody/64 of them. We refuse a
+		// larger count up front, rather than allocating for
+		// signatures the message cannot hold.
+		if int(numSigs) > MaxMsgBody/64 {
+			return fmt.Errorf("too many signatures: %d", numSigs)
+		}
+
 		var sigs []Sig
 		if numSigs > 0 {
 			sigs = make([]Sig, numSigs)
